@@ -40,6 +40,7 @@ type Run struct {
 	Shards   int         // for Kind=shards
 	MaxState int         // state cap (0 = none); hitting it makes the run non-exhaustive
 	Race     bool        // use the -race worker binary
+	Cases    bool        // shard job that reports one line per case and can be resumed behind a fatal case
 }
 
 // Plan is what a check runs for one tier.
@@ -342,6 +343,10 @@ func (c *ctx) runJob(bin string, job *pt.Job, timeout time.Duration) ([]pt.Line,
 	var stderr bytes.Buffer
 	cmd.Stdout = &stderr
 	cmd.Stderr = &stderr
+	if os.Getenv("VERIF_LOG") != "" {
+		cmd.Stdout = os.Stderr
+		cmd.Stderr = os.Stderr
+	}
 	if err := cmd.Start(); err != nil {
 		return nil, err
 	}
@@ -444,15 +449,76 @@ func (c *ctx) bfs(r Run) (*runStats, error) {
 					results[ci] = chunkRes{lo: lo, err: errBudget}
 					return
 				}
-				job := &pt.Job{Check: r.Check, Kind: "expand", Params: params}
-				var keys []string
-				for _, n := range frontier[lo:hi] {
-					job.Items = append(job.Items, n.h)
-					keys = append(keys, n.key)
+				// run the chunk; if the worker dies, the journal names the history and successor in
+				// flight: record it, skip it, and run the rest again
+				pending := make([]int, 0, hi-lo)
+				for i := lo; i < hi; i++ {
+					pending = append(pending, i)
 				}
-				job.Extra, _ = json.Marshal(keys)
-				lines, err := c.runJob(bin, job, 30*time.Minute)
-				results[ci] = chunkRes{lo: lo, lines: lines, err: err}
+				skip := map[int][]int{}
+				var all []pt.Line
+				for attempt := 0; attempt < 200 && len(pending) > 0; attempt++ {
+					job := &pt.Job{Check: r.Check, Kind: "expand", Params: params}
+					var keys []string
+					sk := map[string][]int{}
+					for j, gi := range pending {
+						job.Items = append(job.Items, frontier[gi].h)
+						keys = append(keys, frontier[gi].key)
+						if len(skip[gi]) > 0 {
+							sk[fmt.Sprint(j)] = skip[gi]
+						}
+					}
+					job.Extra, _ = json.Marshal(map[string]interface{}{"keys": keys, "skip": sk})
+					lines, err := c.runJob(bin, job, 10*time.Minute)
+					done := map[int]bool{}
+					var lastStart *pt.Line
+					for k := range lines {
+						l := lines[k]
+						if l.Start != nil {
+							lastStart = &lines[k]
+							continue
+						}
+						if l.Done || l.Err != "" {
+							done[l.I] = true
+							l.I = pending[l.I] - lo // re-index to the chunk
+							all = append(all, l)
+						}
+					}
+					if err == nil {
+						break
+					}
+					if lastStart == nil {
+						results[ci] = chunkRes{lo: lo, lines: all, err: err}
+						return
+					}
+					gi := pending[*lastStart.Start]
+					hist := append([]pt.Action{}, frontier[gi].h...)
+					if lastStart.Act != nil {
+						hist = append(hist, *lastStart.Act)
+					}
+					v := &pt.Violation{Sig: "crash:worker-died:" + crashClass(err.Error()), Msg: "the worker process died while executing the last step of this history:\n" + firstLines(err.Error(), 40)}
+					if lastStart.Viol != nil {
+						v = lastStart.Viol
+					}
+					if strings.Contains(err.Error(), "worker timeout") && lastStart.Viol == nil {
+						// wall-clock watchdog of the harness: not an oracle; the rest of the chunk is dropped
+						results[ci] = chunkRes{lo: lo, lines: all, err: errWatchdog}
+						return
+					}
+					c.record(r, hist, v, nil)
+					if lastStart.A != nil {
+						skip[gi] = append(skip[gi], *lastStart.A)
+					}
+					var np []int
+					for j, g := range pending {
+						if done[j] || (lastStart.A == nil && g == gi) {
+							continue
+						}
+						np = append(np, g)
+					}
+					pending = np
+				}
+				results[ci] = chunkRes{lo: lo, lines: all}
 			}(ci, ch[0], ch[1])
 		}
 		wg.Wait()
@@ -462,20 +528,18 @@ func (c *ctx) bfs(r Run) (*runStats, error) {
 				timedOut = true
 				continue
 			}
-			doneItems := map[int]bool{}
-			started := -1
+			if res.err == errWatchdog {
+				st.Exhaustive = false
+				st.Cap = "a worker hit the harness wall-clock watchdog; its chunk is incomplete"
+				res.err = nil
+			}
 			for _, l := range res.lines {
-				if l.Start != nil {
-					started = *l.Start
-					continue
-				}
 				if l.Err != "" {
 					return st, fmt.Errorf("worker: item %v: %s", frontier[res.lo+l.I].h, l.Err)
 				}
 				if !l.Done {
 					continue
 				}
-				doneItems[l.I] = true
 				parent := frontier[res.lo+l.I]
 				for _, s := range l.Succs {
 					st.Transitions++
@@ -504,17 +568,9 @@ func (c *ctx) bfs(r Run) (*runStats, error) {
 				}
 			}
 			if res.err != nil {
-				// the worker died: the journal names the item in flight
-				lo, hi := chunks[ci][0], chunks[ci][1]
-				if started >= 0 && !doneItems[started] {
-					v := &pt.Violation{Sig: "crash:worker-died", Msg: "worker process died while expanding this history: " + firstLines(res.err.Error(), 30)}
-					c.record(r, frontier[lo+started].h, v, nil)
-					// re-run the remaining items of the chunk one by one is not attempted: count as cap
-				}
-				_ = hi
-				st.Exhaustive = false
-				st.Cap = "worker died; remaining items of its chunk not explored"
+				return st, fmt.Errorf("worker failed without a journal: %v", res.err)
 			}
+			_ = ci
 		}
 		if timedOut {
 			st.Exhaustive = false
@@ -536,6 +592,21 @@ func (c *ctx) bfs(r Run) (*runStats, error) {
 }
 
 var errBudget = fmt.Errorf("budget")
+var errWatchdog = fmt.Errorf("watchdog")
+
+// crashClass extracts a short stable description of a worker crash (panic message or fatal error).
+func crashClass(s string) string {
+	for _, l := range strings.Split(s, "\n") {
+		l = strings.TrimSpace(l)
+		if strings.HasPrefix(l, "panic: ") || strings.HasPrefix(l, "fatal error: ") {
+			if len(l) > 100 {
+				l = l[:100]
+			}
+			return l
+		}
+	}
+	return "unknown"
+}
 
 func firstLines(s string, n int) string {
 	ls := strings.Split(s, "\n")
@@ -572,22 +643,88 @@ func (c *ctx) shards(r Run) (*runStats, error) {
 			if left < time.Second {
 				left = time.Second
 			}
-			extra, _ := json.Marshal(map[string]interface{}{"budget_s": left.Seconds() * 0.9, "seed": c.seed, "tier": c.tier})
-			job := &pt.Job{Check: r.Check, Kind: r.Kind, Params: params, Shard: i, Shards: n, Extra: extra}
-			lines, err := c.runJob(bin, job, left+2*time.Minute)
-			for _, l := range lines {
-				if l.Err != "" {
-					errs[i] = fmt.Errorf("%s", l.Err)
+			var skip []int
+			si := &ShardInfo{Exhaustive: true}
+			caseMode := false
+			for attempt := 0; attempt < 400; attempt++ {
+				left = time.Until(c.deadline)
+				if left < time.Second {
+					left = time.Second
 				}
-				if l.Done && len(l.Info) > 0 {
-					var si ShardInfo
-					if e := json.Unmarshal(l.Info, &si); e == nil {
-						infos[i] = &si
+				extra, _ := json.Marshal(map[string]interface{}{"budget_s": left.Seconds() * 0.9, "seed": c.seed, "tier": c.tier, "skip": skip})
+				job := &pt.Job{Check: r.Check, Kind: r.Kind, Params: params, Shard: i, Shards: n, Extra: extra}
+				lines, err := c.runJob(bin, job, left+2*time.Minute)
+				started := -1
+				var startLine *pt.Line
+				doneCase := map[int]bool{}
+				finished := false
+				for k := range lines {
+					l := lines[k]
+					switch {
+					case l.Start != nil:
+						started = *l.Start
+						startLine = &lines[k]
+					case l.Err != "":
+						errs[i] = fmt.Errorf("%s", l.Err)
+					case l.Done && l.I >= 0 && len(l.Info) > 0 && r.Cases:
+						caseMode = true
+						var co pt.CaseOut
+						if json.Unmarshal(l.Info, &co) == nil {
+							doneCase[l.I] = true
+							skip = append(skip, l.I)
+							si.Evaluations++
+							si.States++
+							si.Transitions += co.Transitions
+							si.Outcomes = append(si.Outcomes, co.Outcome)
+							si.Nontrivial = append(si.Nontrivial, co.Name+"|"+co.Outcome)
+							if len(si.Samples) < 3 {
+								si.Samples = append(si.Samples, co)
+							}
+							if co.Viol != nil {
+								si.Violations = append(si.Violations, pt.ShardViol{Viol: *co.Viol, Extra: co.Extra})
+							}
+						}
+					case l.Done && len(l.Info) > 0:
+						finished = true
+						if !caseMode {
+							var full ShardInfo
+							if e := json.Unmarshal(l.Info, &full); e == nil {
+								si = &full
+							}
+						}
 					}
 				}
-			}
-			if err != nil && infos[i] == nil && errs[i] == nil {
-				errs[i] = err
+				caseMode = r.Cases
+				if err == nil || finished {
+					infos[i] = si
+					break
+				}
+				if !caseMode || started < 0 || doneCase[started] {
+					if errs[i] == nil {
+						errs[i] = err
+					}
+					break
+				}
+				// the worker died or had to exit inside case `started`
+				v := pt.Violation{Sig: "crash:worker-died:" + crashClass(err.Error()), Msg: "the worker process died while executing this case:\n" + firstLines(err.Error(), 40)}
+				var ex json.RawMessage
+				for k := range lines {
+					if lines[k].Start != nil && *lines[k].Start == started {
+						if lines[k].Viol != nil {
+							v = *lines[k].Viol
+						}
+						if len(lines[k].Info) > 0 {
+							ex = lines[k].Info
+						}
+					}
+				}
+				_ = startLine
+				si.Violations = append(si.Violations, pt.ShardViol{Viol: v, Extra: ex})
+				si.Evaluations++
+				si.States++
+				si.Transitions++
+				skip = append(skip, started)
+				infos[i] = si
 			}
 		}(i)
 	}
